@@ -41,11 +41,14 @@ CurG == cur
 
 Period(G) == IF G.dim = 1 THEN Min({G.nf, MaxChainFaces}) ELSE Min({G.nf, SignPeriod})
 SignsAt(G, cd) == [f \in 1..G.nf |-> ((cd \div Pow3((f - 1) % Period(G))) % 3) - 1]
-BRank(G, f) == Cardinality({g \in BoundaryFaces(G) : g < f})
 BcPer(G) == Min({Cardinality(BoundaryFaces(G)), BcPeriod})
-BcAt(G, m) == [f \in 1..G.nf |->
-                 IF (f - 1) \notin BoundaryFaces(G) THEN "int"
-                 ELSE IF (m \div Pow2(BRank(G, f - 1) % BcPer(G))) % 2 = 1 THEN "dir" ELSE "neu"]
+BcAt(G, m) ==
+  LET B   == BoundaryFaces(G)                  \* computed once per grid
+      per == Min({Cardinality(B), BcPeriod})
+      rank(f) == Cardinality({g \in B : g < f})
+  IN [f \in 1..G.nf |->
+        IF (f - 1) \notin B THEN "int"
+        ELSE IF (m \div Pow2(rank(f - 1) % per)) % 2 = 1 THEN "dir" ELSE "neu"]
 NComp == 1 + ((code + bcm) % 3)
 
 \* transport inputs
@@ -86,13 +89,15 @@ ULaws == phase = 2 =>
   THEN LET T == TGrids[gi]
            ps == PsiOf(T.G, psi)
            fl == FluxOf(T, ps)
+           dts == Steps(T, fl)
        IN /\ DivFree(T.G, fl) /\ NoFlow(T.G, fl)
-          /\ \A i \in 1..3 : \A j \in 1..2 :
-               /\ CFL(T.G, fl, T.vol, Steps(T, fl)[j])
-               /\ TransportLaw(T.G, fl, T.vol, Inits(T.G, ps)[i], Steps(T, fl)[j])
-  ELSE LET G == CurG IN
-         /\ UpwindFamily(G, SignsAt(G, code), BcAt(G, bcm), NComp)
-         /\ ImplAgrees(G, SignsAt(G, code), BcAt(G, bcm), NComp)
+          /\ \A j \in 1..2 : CFL(T.G, fl, T.vol, dts[j])
+          /\ TransportLawAll(T.G, fl, T.vol, Inits(T.G, ps), dts)
+  ELSE LET G == CurG
+           sg == SignsAt(G, code)      \* bound once: operator arguments are re-evaluated at every use
+           bc == BcAt(G, bcm)
+       IN /\ UpwindFamily(G, sg, bc, NComp)
+          /\ ImplAgrees(G, sg, bc, NComp)
 
 UEmit == phase = 2 =>
   IF src = "tr"
